@@ -12,7 +12,7 @@ Fixpoint p10 (fuel : nat) (b p : Z) : Z :=
 Definition cat10 (a b : Z) : Z := a * p10 20 b 1 + b.
 Definition mon (m : nat) : monoid :=
   match m with
-  | O => mkMonoid 0 (fun a b => a * 31 + b)
+  | O => mkMonoid 7 (fun a b => a * 31 + b)
   | _ => mkMonoid 0 cat10
   end.
 Definition nmon : nat := 2.
